@@ -179,6 +179,11 @@ def run(cx):
                 if cl[0] == 'closure':
                     _, r = cx.closure_ret(cl)
                     ok = r is not None and match('(unwrap (call f64::partial_cmp (field deviation (field 1 (param 2))) (field deviation (field 1 (param 3)))))', r) is not None
+                elif cl[0] == 'fn':
+                    # a named comparator function instead of a closure: its two parameters are positions 1 and 2
+                    fb = cx.facts.bodies.get(cl[1]) or cx.facts.fn(cl[1])
+                    r = cx.retval(fb) if fb is not None else None
+                    ok = r is not None and match('(unwrap (call f64::partial_cmp (field deviation (field 1 (param 1))) (field deviation (field 1 (param 2)))))', r) is not None
             cx.ob('EXPR', f'SurfaceDeviationSet::new:{which}:comparator', ok and len(cs) == 1,
                   f'{which} compares a.deviation with b.deviation in argument order (not reversed, not another field)', where=b.file, found=r)
     b = cx.fn(f'{SDS}::max')
